@@ -21,7 +21,8 @@ func init() {
 			"R3 the byte count of base64 Decode into a caller-sized buffer is used. " +
 			"R4 the auth field is decoded with base64.StdEncoding. " +
 			"R5 decodeAuth never returns one element of an unlimited split on ':' (the password is everything after the first colon). " +
-			"R6 URL-form keys of the auths table keep their port (the key normalisation never calls URL.Hostname / net.SplitHostPort).",
+			"R6 URL-form keys of the auths table keep their port (the key normalisation never calls URL.Hostname / net.SplitHostPort). " +
+			"R7 the function returned by ExecHelper / ExecHelperWithEnv only reads the variables it captures from the creating call (locks aside): no buffer or result is shared between lookups.",
 		NotDecided: "exactness of base64 decoding of the auth field, and the text of the error when several entries are malformed (it can depend on iteration order; outside the property's statement), are not decided.",
 		Technique:  "static analysis: must-pass-through on the loop body, dominance, disjunctive path facts, write-effect scan",
 	})
@@ -32,6 +33,7 @@ func runC19(c *core.Ctx) {
 	authDecodedWithStdAlphabet(c, "C19.R4")
 	passwordIsEverythingAfterTheFirstColon(c, "C19.R5")
 	authKeysKeepThePort(c, "C19.R6")
+	helperRunnerIsStateless(c, "C19.R7")
 	dec := c.P.Func("ociauth", "decodeConfigFile")
 	if dec == nil {
 		c.Fail("C19.R1", "anchor/ociauth.decodeConfigFile", 0, "ociauth.decodeConfigFile not found")
